@@ -36,8 +36,13 @@ func Phases(c core.Case) ([]Phase, bool) {
 	}
 	out := make([]Phase, len(c.Lines))
 	cur := Phase{All: all, PS: NewPatSet(all)}
-	out[0] = cur
 	var pending [][]byte
+	if h := core.Toks(c.Lines[0]); len(h) >= 3 && h[2] == "raw" {
+		// inserted, not built: nothing is in force yet
+		cur = Phase{PS: NewPatSet(nil), Dirty: true}
+		pending = all
+	}
+	out[0] = cur
 	for i := 1; i < len(c.Lines); i++ {
 		tk := core.Toks(c.Lines[i])
 		switch {
@@ -108,6 +113,10 @@ func NextRound(r *core.Rand, u Unit, sofar []Seq) (newp []Seq, focus []Seq) {
 			base = ne[r.Intn(len(ne))]
 		}
 		var p Seq
+		if r.Chance(4) {
+			newp = append(newp, Seq{}) // Insert("") in a later round: a no-op
+			continue
+		}
 		switch r.Pick(40, 15, 8, 10, 8, 9, 10) {
 		case 0: // infix that does not start the pattern: base[i:j], i >= 1
 			if len(base) >= 2 {
